@@ -3,6 +3,7 @@
   Run with `lake env lean --run Main.lean`.
 -/
 import J2M.Codec
+import J2M.Runtime
 open J2M J2M.Codec
 
 def okJ (j : J) : J := Lean.Json.mkObj [("ok", j)]
@@ -12,6 +13,26 @@ def resJ {α} (enc : α → J) : Except PyErr α → J
   | .error e => errJ e
 
 def eqEnvOf (o : GenOracles) : EqEnv := ⟨o.str, fun i => "Model#" ++ i, fun _ => none, 1000000⟩
+
+/-- `["read"] | ["raise"] | ["seq", a, b] | ["inject", [[key, prefix], …] , body]` -/
+partial def decBody (j : J) : Except String Runtime.Body := do
+  match (← asArr j).toList with
+  | [.str "read"] => pure .read
+  | [.str "raise"] => pure .raise
+  | [.str "seq", a, b] => do pure (.seq (← decBody a) (← decBody b))
+  | [.str "inject", ps, b] => do
+    let ps ← (← asArr ps).toList.mapM (fun p => do
+      match (← asArr p).toList with
+      | [.str k, .str v] => pure (k, v)
+      | _ => err "bad patch")
+    pure (.inject ps (← decBody b))
+  | _ => err s!"bad body {j.compress}"
+
+/-- what a reference to the probe model `P` shows under a context: its path prefix, or "" -/
+def probePrefix (c : Runtime.Ctx) : String :=
+  match c with
+  | none => ""
+  | some ps => ((ps.find? (·.1 == "P")).map (·.2)).getD ""
 
 def handle (req : J) : Except String J := do
   let op ← asStr (← field req "op")
@@ -219,6 +240,17 @@ def handle (req : J) : Except String J := do
   | "modeltuple" => do
     let xs ← decStrs (← field req "in")
     pure (resJ (fun (t : String × String × String) => Lean.Json.arr #[.str t.1, .str t.2.1, .str t.2.2]) (CliArgs.modelTuple xs))
+  | "ctxexec" => do
+    let items ← (← asArr (← field req "schedule")).toList.mapM (fun it => do
+      match (← asArr it).toList with
+      | [t, b] => do pure ((← asNat t), (← decBody b))
+      | _ => err "bad schedule item")
+    let threads ← (← asArr (← field req "threads")).toList.mapM asNat
+    let (st, outs) := items.foldl (fun (acc : Runtime.CtxState × List J) (it : Nat × Runtime.Body) =>
+      let (s1, ok, reads) := Runtime.exec it.1 it.2 acc.1
+      (s1, acc.2 ++ [Lean.Json.mkObj [("ok", .bool ok), ("reads", encStrs (reads.map probePrefix))]])) (({} : Runtime.CtxState), [])
+    pure (okJ (Lean.Json.mkObj [("items", .arr outs.toArray),
+      ("final", encStrs (threads.map (fun t => probePrefix (st.get t))))]))
   | "setargs" => do
     let kw ← decStrs (← field req "kw")
     let dkr ← decStrs (← field req "dkr")
